@@ -190,4 +190,76 @@ theorem source_cell_flatten (ctx : KCtx) (cell : Option KVal) (h : FlattenCellOk
     simp [runCellFn, Generated.treeflattenFuns, Generated.clearTreeflattenCode, Generated.setTreeflattenCode, Generated.getTreeflattenCode,
       KStmt.run, KExpr.eval, ktruthy, List.lookup, flattenOfCell]
 
+/-! ### histories of the label: the translated functions refine the abstract label machine -/
+
+/-- what `_check` does to the `?`-leaf label -/
+inductive LabelOp
+  | clear
+  | set (i : Nat) (S : String)
+  | get
+
+/-- the abstract label machine of the model (`tp : TreePath`): the new label and whether the operation raised AnnotationError -/
+def LabelOp.spec : LabelOp → TreePath → TreePath × Bool
+  | .clear, _ => (none, false)
+  | .set i S, none => (some (i, S), false)
+  | .set _ _, some p => (some p, true)          -- a label on top of a label: ambiguous, AnnotationError
+  | .get, none => (none, true)                  -- `?` outside a structured PyTree: AnnotationError
+  | .get, some p => (some p, false)
+
+/-- the translated function run on the thread's cell: the cell afterwards and whether it raised AnnotationError -/
+def LabelOp.impl : LabelOp → Option KVal → Option (Option KVal × Bool)
+  | .clear, c => (runCellFn Generated.treepathFuns ⟨none, ""⟩ Generated.clearTreepathCode c).map fun r => (r.1, r.2.isRight)
+  | .set i S, c => (runCellFn Generated.treepathFuns ⟨some i, S⟩ Generated.setTreepathCode c).map fun r => (r.1, r.2.isRight)
+  | .get, c => (runCellFn Generated.treepathFuns ⟨none, ""⟩ Generated.getTreepathCode c).map fun r => (r.1, r.2.isRight)
+
+/-- cells the leaf loop can produce: nothing yet, `None`, or the label of a leaf -/
+def LeafCellOk (c : Option KVal) : Prop := c = none ∨ c = some .none ∨ ∃ i S, c = some (.label (some i) S)
+
+theorem LeafCellOk.treepath {c : Option KVal} (h : LeafCellOk c) : TreepathCellOk c := by
+  rcases h with h | h | ⟨i, S, h⟩
+  · exact Or.inl h
+  · exact Or.inr (Or.inl h)
+  · exact Or.inr (Or.inr ⟨some i, S, h⟩)
+
+theorem labelOp_step (op : LabelOp) (c : Option KVal) (h : LeafCellOk c) :
+    ∃ c', op.impl c = some (c', (op.spec (tpOfCell c)).2) ∧ LeafCellOk c' ∧ tpOfCell c' = (op.spec (tpOfCell c)).1 := by
+  cases op with
+  | clear =>
+    refine ⟨some .none, ?_, Or.inr (Or.inl rfl), rfl⟩
+    simp [LabelOp.impl, (source_cell_treepath ⟨none, ""⟩ c h.treepath).1, LabelOp.spec]
+  | set i S =>
+    have hs := (source_cell_treepath ⟨some i, S⟩ c h.treepath).2.1
+    rcases h with rfl | rfl | ⟨j, S', rfl⟩
+    · exact ⟨some (.label (some i) S), by simp [LabelOp.impl, hs, LabelOp.spec, tpOfCell], Or.inr (Or.inr ⟨i, S, rfl⟩), rfl⟩
+    · exact ⟨some (.label (some i) S), by simp [LabelOp.impl, hs, LabelOp.spec, tpOfCell], Or.inr (Or.inr ⟨i, S, rfl⟩), rfl⟩
+    · exact ⟨some (.label (some j) S'), by simp [LabelOp.impl, hs, LabelOp.spec, tpOfCell], Or.inr (Or.inr ⟨j, S', rfl⟩), rfl⟩
+  | get =>
+    have hg := (source_cell_treepath ⟨none, ""⟩ c h.treepath).2.2
+    rcases h with rfl | rfl | ⟨j, S', rfl⟩
+    · exact ⟨none, by simp [LabelOp.impl, hg, LabelOp.spec, tpOfCell], Or.inl rfl, rfl⟩
+    · exact ⟨some .none, by simp [LabelOp.impl, hg, LabelOp.spec, tpOfCell], Or.inr (Or.inl rfl), rfl⟩
+    · exact ⟨some (.label (some j) S'), by simp [LabelOp.impl, hg, LabelOp.spec, tpOfCell], Or.inr (Or.inr ⟨j, S', rfl⟩), rfl⟩
+
+def runLabelSpec : List LabelOp → TreePath → TreePath × List Bool
+  | [], tp => (tp, [])
+  | op :: ops, tp => let r := op.spec tp; let q := runLabelSpec ops r.1; (q.1, r.2 :: q.2)
+
+def runLabelImpl : List LabelOp → Option KVal → Option (Option KVal × List Bool)
+  | [], c => some (c, [])
+  | op :: ops, c => (op.impl c).bind fun r => (runLabelImpl ops r.1).map fun q => (q.1, r.2 :: q.2)
+
+/-- REFINEMENT: every history of clear / set / get on the label — including the ones that raise AnnotationError, after
+    which the history goes on — runs on the translated functions with exactly the abstract machine's sequence of errors
+    and ends in a cell that stands for the abstract label, from any cell the leaf loop can produce -/
+theorem source_cell_treepath_history (ops : List LabelOp) (c : Option KVal) (h : LeafCellOk c) :
+    ∃ c', runLabelImpl ops c = some (c', (runLabelSpec ops (tpOfCell c)).2) ∧ tpOfCell c' = (runLabelSpec ops (tpOfCell c)).1 := by
+  induction ops generalizing c with
+  | nil => exact ⟨c, rfl, rfl⟩
+  | cons op ops ih =>
+    obtain ⟨c1, h1, hok, htp⟩ := labelOp_step op c h
+    obtain ⟨c2, h2, htp2⟩ := ih c1 hok
+    refine ⟨c2, ?_, ?_⟩
+    · simp [runLabelImpl, h1, h2, runLabelSpec, htp]
+    · simp [runLabelSpec, htp2, htp]
+
 end JV
